@@ -581,6 +581,38 @@ func Walk(cfg *Config, fn *ssa.Function) []*Path {
 // first) of a module function by its load.FuncName.
 var ParamNames func(funcName string) []string
 
+// isRangeCounter: an integer phi of a loop header that enters as −1 and whose every use is phi + 1
+// (go/ssa's rotated form of `for i := range x`).
+func isRangeCounter(phi *ssa.Phi) bool {
+	init := false
+	for _, e := range phi.Edges {
+		if c, ok := e.(*ssa.Const); ok && c.Value != nil && c.Value.Kind() == constant.Int {
+			if n, ok := constant.Int64Val(c.Value); ok && n == -1 {
+				init = true
+				continue
+			}
+			return false
+		}
+	}
+	if !init || phi.Referrers() == nil {
+		return false
+	}
+	for _, r := range *phi.Referrers() {
+		bo, ok := r.(*ssa.BinOp)
+		if !ok || bo.Op != token.ADD || bo.X != ssa.Value(phi) {
+			return false
+		}
+		c, ok := bo.Y.(*ssa.Const)
+		if !ok || c.Value == nil {
+			return false
+		}
+		if n, ok := constant.Int64Val(c.Value); !ok || n != 1 {
+			return false
+		}
+	}
+	return true
+}
+
 func paramTerm(prm *ssa.Parameter, name string) *Term {
 	switch prm.Type().Underlying().(type) {
 	case *types.Pointer, *types.Slice, *types.Interface, *types.Map:
@@ -677,11 +709,23 @@ func (w *walker) enter(s *state, fr *frame, b *ssa.BasicBlock) bool {
 				return false
 			}
 			v := w.val(s, fr, phi.Edges[idx])
-			vals = append(vals, w.renderForCompare(s, v))
+			// the rotated `range` loop keeps index−1 in its phi (starts at −1, every use is phi+1): it is
+			// rendered like the counted loop `for i := 0; i < n; i++` — the symbol denotes the INDEX
+			rangeCtr := isRangeCounter(phi)
+			if rangeCtr {
+				one := constTerm(constant.MakeInt64(1))
+				vals = append(vals, w.renderForCompare(s, w.binop(s, token.ADD, v, one, phi.Type())))
+			} else {
+				vals = append(vals, w.renderForCompare(s, v))
+			}
 			if !back && k == 0 {
 				w.havocLoop(s, fr, b)
 			}
-			if !back {
+			if !back && rangeCtr {
+				sym := mk(fmt.Sprintf("φL%d.%d", loopOrdinal(b), k))
+				s.events = append(s.events, fmt.Sprintf("loop L%d: %s starts as 0", loopOrdinal(b), sym))
+				fr.env[phi] = mk("-", sym, constTerm(constant.MakeInt64(1)))
+			} else if !back {
 				sym := mk(fmt.Sprintf("φL%d.%d", loopOrdinal(b), k))
 				invariant := true
 				for _, e := range phi.Edges {
@@ -851,6 +895,10 @@ func (w *walker) binop(s *state, op token.Token, x, y *Term, typ types.Type) *Te
 		return not(mk("<", x, y))
 	case token.LEQ:
 		return not(mk("<", y, x))
+	}
+	// (x − c) + c = x (the index of a rotated range loop)
+	if op == token.ADD && x.Op == "-" && len(x.Args) == 2 && x.Args[1].IsConst() && y.IsConst() && constant.Compare(x.Args[1].C, token.EQL, y.C) {
+		return x.Args[0]
 	}
 	// commutative operators: canonical operand order (constants second, otherwise
 	// by rendering), so that a ^ b and b ^ a are the same term
